@@ -317,6 +317,8 @@ def run(chk):
     chk.guard(rule_r1, chk)
     chk.guard(rule_r2, chk)
     chk.guard(rule_r3, chk)
+    from .. import unused as _unused
+    chk.guard(_unused.apply, chk, "C14-R91")
     from .. import args as _args
     chk.guard(_args.apply, chk, "C14-R90", {'series'}, 1)
     chk.assumptions = [
